@@ -392,6 +392,10 @@ class World(object):
         self.step_no += 1
         b.step = self.step_no
         b.ops_in_step = 0
+        if getattr(self, "armed", None) is not None:
+            self.trace.append(self.armed)
+            self.armed = None
+            b.ops_in_step = 0
         self.trace.append(label)
         kind = label[0]
         running = None
@@ -449,7 +453,22 @@ class World(object):
             elif kind == "crash":
                 inst = self.instances[label[1] - 1]
                 b.log("crash", instance=inst.idx, site=None)
+                inflight = len(label) > 2 and label[2] == "inflight"
+                consumed = [qn for qn, q in b.queues.items() if any(c.channel.connection is inst.conn for c in q.consumers)]
                 inst.crash()
+                if inflight:
+                    # the broker had already written the head message of each consumed queue to the dead connection
+                    for qn in consumed:
+                        q = b.queues.get(qn)
+                        if q and q.messages:
+                            q.messages[0].redelivered = True
+            elif kind == "arm_crash":
+                # the process will die right after the k-th broker operation of the next step
+                b.crash_after_ops = label[1]
+                self.step_no -= 1
+                self.trace.pop()
+                self.armed = label
+                return
             elif kind == "restart":
                 inst = self.instances[label[1] - 1]
                 b.log("restart", instance=inst.idx, site=None)
@@ -470,6 +489,7 @@ class World(object):
         except Exception as e:
             self.escaped.append((self.step_no, label, "%s: %s" % (type(e).__name__, e)))
             b.log("escaped_exception", error="%s: %s" % (type(e).__name__, e), site=None)
+        b.crash_after_ops = None
         self._fold_due_heartbeats()
         for m in self.monitors:
             m.after_step(self, label)
@@ -488,7 +508,7 @@ class World(object):
                     break
                 t = min(hb, key=lambda t: (t.deadline, t.seq))
                 ed = t.callback.__self__
-                if (ed.heartbeat_count + 1) % 60 == 0:
+                if (ed.heartbeat_count + 1) % 60 == 0 and ed.state_engine.branch_metadata:
                     break
                 t.fired = True
                 t.connection.timers.remove(t)
@@ -518,7 +538,7 @@ class World(object):
                 b.expire()
             if self.is_heartbeat(nxt):
                 ed = nxt.callback.__self__
-                if (ed.heartbeat_count + 1) % 60 != 0:
+                if (ed.heartbeat_count + 1) % 60 != 0 or not ed.state_engine.branch_metadata:
                     # deterministic no-op beat: fold it
                     nxt.fired = True
                     nxt.connection.timers.remove(nxt)
